@@ -490,9 +490,44 @@ def extract_case(seed):
     return None
 
 
+def boundary_case():
+    """rows exactly on the boundary (integer coordinates, one unit, exact in floating point): the sphere is open
+    (distance < radius), the box is closed (|offset| <= half-size)"""
+    import numpy as np
+    import osyris as osy
+    from osyris.spatial import extract_box, extract_sphere
+
+    pts = np.array([[3.0, 4.0, 0.0], [0.0, 0.0, 5.0], [1.0, 1.0, 1.0], [3.0, 4.0, 1.0], [-5.0, 0.0, 0.0], [2.0, -3.0, 6.0], [2.0, 3.0, -6.0]])
+    ds = osy.Dataset()
+    ds["mesh"] = osy.Datagroup()
+    ds["mesh"]["position"] = osy.Vector(*[osy.Array(values=pts[:, d].copy(), unit="cm") for d in range(3)])
+    ds["mesh"]["tag"] = osy.Array(values=np.arange(len(pts), dtype=float), unit="g")
+    ds.meta = {"ndim": 3}
+    origin = osy.Vector(osy.Array(values=0.0, unit="cm"), osy.Array(values=0.0, unit="cm"), osy.Array(values=0.0, unit="cm"))
+    r = np.sqrt((pts ** 2).sum(axis=1))
+    sub = extract_sphere(ds, radius=osy.Array(values=5.0, unit="cm"), origin=origin)
+    got = sorted(sub["mesh"]["tag"].values.tolist()) if "mesh" in sub.keys() else []
+    want = sorted(np.arange(len(pts))[r < 5.0].astype(float).tolist())
+    if got != want:
+        return "sphere of radius 5 cm about the origin returns rows %s, the rows with distance < radius are %s (rows 0, 1, 4 lie exactly on the sphere)" % (got, want)
+    sub = extract_box(ds, dx=osy.Array(values=4.0, unit="cm"), dy=osy.Array(values=6.0, unit="cm"), dz=osy.Array(values=12.0, unit="cm"), origin=origin)
+    got = sorted(sub["mesh"]["tag"].values.tolist()) if "mesh" in sub.keys() else []
+    inside = (np.abs(pts[:, 0]) <= 2.0) & (np.abs(pts[:, 1]) <= 3.0) & (np.abs(pts[:, 2]) <= 6.0)
+    want = sorted(np.arange(len(pts))[inside].astype(float).tolist())
+    if got != want:
+        return "box 4x6x12 cm about the origin returns rows %s, the rows with |offset| <= half-size are %s (rows 5, 6 lie exactly on faces)" % (got, want)
+    return None
+
+
 def sweep_c16(tier, seed):
     n = 300 if tier == "quick" else 6000
     viol = []
+    try:
+        err = boundary_case()
+    except Exception as e:
+        err = "exception %r" % (e,)
+    if err:
+        viol.append({"name": "C16.native.boundary_rows", "input": {"case": "fixed integer-coordinate rows on the sphere / on box faces"}, "observed": err})
     for k in range(n):
         try:
             err = extract_case(seed * 7919 + k)
